@@ -34,6 +34,9 @@ PLAN = {
     'C09': {'gated': (['ctl', 'barrier'], 320, 6000), 'free': (['ctl'], 64, 1200), 'model': ['MC_core']},
     'C10': {'gated': (['cancel', 'batch'], 320, 6000), 'free': (['cancel'], 64, 1200), 'model': ['MC_core']},
     'C04': {'gated': (['basic', 'multi', 'barrier', 'cancel'], 320, 6000), 'free': (['basic'], 48, 800), 'model': []},
+    'C11': {'gated': (['adapter'], 300, 5000), 'free': (['adapter'], 48, 800), 'model': [], 'crash': (40, 600)},
+    'C12': {'gated': (['adapter'], 300, 5000), 'free': (['adapter'], 48, 800), 'model': []},
+    'C13': {'gated': (['dist', 'adapter'], 300, 5000), 'free': (['dist'], 64, 1000), 'model': []},
     'C14': {'gated': (['life'], 200, 3000), 'free': (['life'], 48, 600), 'model': [], 'life_exhaustive': (3, 4)},
     'C15': {'gated': (['multi'], 400, 6000), 'free': (['multi'], 32, 600), 'model': []},
     'C16': {'gated': (['basic', 'handle', 'cancel', 'batch'], 320, 6000), 'free': (['basic', 'handle'], 96, 2400), 'model': ['MC_core']},
@@ -207,6 +210,129 @@ def replay_prog(prog, choices):
     return p
 
 
+RACE_FAMS = ['basic', 'ctl', 'cancel', 'batch', 'handle', 'pool', 'multi', 'dist', 'adapter', 'life', 'barrier']
+
+
+def parse_races(output):
+    """DATA RACE reports of the Go race detector that involve library code (not only the harness)"""
+    out = []
+    for blk in output.split('WARNING: DATA RACE')[1:]:
+        blk = blk.split('==================')[0]
+        frames = re.findall(r'\n\s+([\w./()*\[\]·,{}-]+)\(\)\n\s+(\S+?):(\d+)', blk)
+        lib = [f for f in frames if 'goptics/varmq' in f[0] and 'zz_verif' not in f[1]]
+        if not lib:
+            continue
+        tops = []
+        for part in re.split(r'\n(?=(?:Previous )?(?:read|write|atomic) )', blk):
+            fr = re.findall(r'\n\s+([\w./()*\[\]·,{}-]+)\(\)\n\s+(\S+?):(\d+)', '\n' + part)
+            fr = [f for f in fr if 'zz_verif' not in f[1] and 'goptics/varmq' in f[0]]
+            if fr:
+                tops.append('%s %s:%s' % (fr[0][0].split('/')[-1], os.path.basename(fr[0][1]), fr[0][2]))
+        out.append(' | '.join(tops[:2]) or lib[0][0])
+    return out
+
+
+def check_race(pid, tier, seed):
+    """C19: concurrent client programs executed free-running under the race detector"""
+    t0 = time.time()
+    scratch = vlib.scratch_dir(pid)
+    cov = {}
+    violations = []
+    try:
+        binary = vlib.build_harness(scratch, race=True)
+        rng = random.Random(seed * 7919 + 19)
+        n = 220 if tier == 'quick' else 4000
+        ps = []
+        for p in progs.generate(RACE_FAMS, n, rng.randrange(1 << 30), prefix='C19r'):
+            q = progs.free_variant(p, spin=rng.choice([0, 1, 3]))
+            q['sched']['kind'] = 'race'
+            ps.append(q)
+        nchunk = 8
+        chunks = [ps[i:i + nchunk] for i in range(0, len(ps), nchunk)]
+        suspects, reports, ran = [], [], 0
+
+        def run_chunk(args):
+            i, ch = args
+            sd = os.path.join(scratch, 'c%d' % i)
+            os.makedirs(sd, exist_ok=True)
+            eps, cr = vlib.run_episodes(binary, ch, sd, gomaxprocs=0, workers=1, tag='r', race=True, timeout=300)
+            outp = '\n'.join(set(e.get('child_output', '') for e in eps)) + '\n'.join(c['output'] for c in cr)
+            return ch, len(eps), parse_races(outp), cr
+        with ThreadPoolExecutor(vlib.NCPU) as ex:
+            for ch, nrun, races, cr in ex.map(run_chunk, list(enumerate(chunks))):
+                ran += nrun
+                if races:
+                    suspects.append(ch)
+                    reports += races
+        cov['evaluations'] = ran
+        multi = [p for p in ps if len(p['clients']) >= 2]
+        cov['distinct_nontrivial'] = len(set(json.dumps([p['cfg'], p['clients']], sort_keys=True) for p in multi))
+        cov['rule'] = 'programs generated from the families %s (seeded), executed free-running on all cores under -race without any harness logging; non-trivial = at least two client goroutines besides the dispatcher and pool goroutines; distinct by configuration and client scripts' % RACE_FAMS
+        cov['samples'] = [{'program': multi[0]}] if multi else [{'program': ps[0]}]
+        cov['race_reports_first_pass'] = sorted(set(reports))[:10]
+        # reproduce: run every program of a suspect chunk alone, a few times
+        confirmed = {}
+        for ch in suspects[:6]:
+            for p in ch:
+                for attempt in range(3):
+                    sd = os.path.join(scratch, 'rr-%s-%d' % (p['id'], attempt))
+                    os.makedirs(sd, exist_ok=True)
+                    eps, cr = vlib.run_episodes(binary, [p], sd, gomaxprocs=0, workers=1, tag='x', race=True, timeout=120)
+                    outp = '\n'.join(e.get('child_output', '') for e in eps) + '\n'.join(c['output'] for c in cr)
+                    rs = parse_races(outp)
+                    if rs:
+                        confirmed.setdefault(p['id'], (p, rs))
+                        break
+                if len(confirmed) >= 3:
+                    break
+        # the verdict is stated as the invariant C19_NoRace of Obs.tla over the race events
+        eps_obs = [{'prog': p, 'events': [], 'races': rs, 'header': {'ep': p['id']}, 'end': {'result': 'ok'}} for p, rs in confirmed.values()]
+        if eps_obs:
+            tp = os.path.join(scratch, 'obs.ndjson')
+            obs.write_obs(eps_obs, tp, vlib.NCPU)
+            bad, _ = tlc_obs_collect(scratch, tp, ['C19_NoRace'], 'race')
+            for p, rs in confirmed.values():
+                if any(b[1] == p['id'] for b in bad):
+                    path = vlib.save_replay(pid, {'property': pid, 'formula': 'C19_NoRace', 'program': p, 'races': rs})
+                    violations.append(path)
+                    print('VIOLATION property=%s replay=%s' % (pid, path), flush=True)
+                    log('  data race: %s' % rs[0])
+        elif reports:
+            print('INCONCLUSIVE property=%s race reports %s did not reproduce when the programs ran alone' % (pid, sorted(set(reports))[:3]), flush=True)
+        vlib.write_evidence(pid, tier, seed, 'exploration', cov, time.time() - t0, violations=len(violations),
+                            assumptions=['the Go race detector reports only real races of the executions it sees (happens-before based)',
+                                         'no harness logging or gating in these runs, so the harness adds no synchronisation'])
+        return 1 if violations else 0
+    finally:
+        shutil.rmtree(scratch, ignore_errors=True)
+
+
+def recovery_prog(ep):
+    """the program of the second life: a fresh worker bound to the adapter's durable state at the crash point"""
+    pending, unacked = [], {}
+    for e in ep['events']:
+        if e['ev'] == 'ad.enq' and e.get('ok'):
+            pending.append({'eseq': e['eseq'], 'job': e.get('job', -1), 'prio': e.get('prio', 0), 'bad': e.get('bad', '')})
+        elif e['ev'] == 'ad.deq' and e.get('ok'):
+            ent = [x for x in pending if x['eseq'] == e['eseq']]
+            pending = [x for x in pending if x['eseq'] != e['eseq']]
+            if e.get('ack') and ent:
+                unacked[e['ack']] = ent[0]
+        elif e['ev'] == 'ad.ack' and e.get('ok'):
+            unacked.pop(e.get('ack'), None)
+        elif e['ev'] == 'ad.purge':
+            pending = []
+    held = list(unacked.values()) + pending
+    if not held:
+        return None
+    p = ep['prog']
+    cfg = json.loads(json.dumps(p['cfg']))
+    cfg.pop('crash_at', None)
+    cfg['preload'] = [({'raw': x['bad'], 'job': 0, 'prio': x['prio']} if x['bad'] or x['job'] <= 0 else {'job': x['job'], 'prio': x['prio']}) for x in held]
+    return {'id': p['id'] + 'r', 'family': 'recovery', 'cfg': cfg, 'clients': [], 'outcome': p.get('outcome', {}),
+            'sched': {'kind': 'random', 'seed': p['sched'].get('seed', 1)}}
+
+
 def check_property(pid, tier, seed):
     t0 = time.time()
     plan = PLAN[pid]
@@ -244,16 +370,56 @@ def check_property(pid, tier, seed):
         nf = fq if tier == 'quick' else ft
         free = [progs.free_variant(p) for p in progs.generate(ffams, nf, rng.randrange(1 << 30), prefix=pid + 'm')]
         # ---- executions on the real code
+        if plan.get('crash'):
+            # every prefix of an execution is a crash point: cut executions after k gated steps ...
+            ncut = plan['crash'][0 if tier == 'quick' else 1]
+            base = [p for p in gated if p["family"] == "adapter"][:max(1, ncut // 4)]
+            for bp in base:
+                for k2 in range(8):
+                    cp = json.loads(json.dumps(bp))
+                    cp['id'] = '%sk%d' % (bp['id'], k2)
+                    cp['family'] = 'crashcut'
+                    cp["cfg"]["crash_at"] = rng.randrange(5, 90)
+                    cp['sched'] = {'kind': 'random', 'seed': rng.randrange(1 << 30)}
+                    gated.append(cp)
         eps, crashes = vlib.run_episodes(binary, gated, scratch, gomaxprocs=1, tag='g')
+        if plan.get('crash'):
+            # ... and bind a fresh worker to what the adapter still holds (pending + delivered-but-unacknowledged)
+            rec = [recovery_prog(e) for e in eps if e['end']['result'] == 'cut']
+            rec = [r for r in rec if r]
+            reps, rcr = vlib.run_episodes(binary, rec, scratch, gomaxprocs=1, tag='rec')
+            eps += reps
+            crashes += rcr
+            cov['crash_points'] = {'cut_executions': len([e for e in eps if e['end']['result'] == 'cut']), 'recoveries': len(reps)}
         feps, fcrashes = vlib.run_episodes(binary, free, scratch, gomaxprocs=0, tag='f')
         all_eps = eps + feps
-        for c in crashes + fcrashes:
-            all_eps.append({'prog': c['prog'], 'events': [], 'crash': crash_class(c['output']), 'crash_output': c['output'], 'header': {'ep': c['prog']['id']}, 'end': {'result': 'crash'}})
+        def run_codec(tag):
+            # payload fidelity: generated values of many Go types through the four adapter-backed bind methods
+            import subprocess
+            cout = os.path.join(scratch, 'codec-%s.ndjson' % tag)
+            ncodec = 40 if tier == 'quick' else 1500
+            pr = subprocess.run([binary, '-test.run', '^TestVerifCodec$', '-test.timeout', '900s'], capture_output=True, text=True,
+                                env=dict(os.environ, VERIF_CODEC_OUT=cout, VERIF_SEED=str(seed), VERIF_CODEC_N=str(ncodec)))
+            cev = [json.loads(x) for x in open(cout)] if os.path.exists(cout) else []
+            if pr.returncode != 0 and not cev:
+                raise Inconclusive('codec harness failed:\n' + (pr.stdout + pr.stderr)[-2000:])
+            stub = {'id': 'C12codec', 'family': 'codec', 'cfg': {'wk': 'plain', 'conc': 2, 'queues': []}, 'clients': [], 'outcome': {}, 'sched': {'kind': 'free', 'seed': seed}}
+            cep = {'prog': stub, 'events': cev, 'header': {'ep': 'C12codec'}, 'end': {'result': 'ok' if pr.returncode == 0 else 'crash'}}
+            if pr.returncode != 0:
+                cep['crash'] = crash_class(pr.stdout + pr.stderr)
+            return cep
+        if pid == 'C12':
+            cep = run_codec('a')
+            all_eps.append(cep)
+            cov['codec'] = {'comparisons': len(cep['events']), 'failed': [e for e in cep['events'] if not e.get('ok')][:5]}
         results = {}
         for e in all_eps:
             results[e['end']['result']] = results.get(e['end']['result'], 0) + 1
         cov['episodes'] = {'gated': len(eps), 'free': len(feps), 'crashed': len(crashes) + len(fcrashes), 'by_result': results}
         inconcl = [e for e in all_eps if e['end']['result'] in ('budget', 'stuck')]
+        for e in all_eps:
+            if e['end']['result'] == 'cut':
+                e['events'] = [x for x in e['events'] if x['ev'] != 'quiescent']
         usable = [e for e in all_eps if e['end']['result'] not in ('budget', 'stuck')]
         if len(usable) < max(4, len(all_eps) // 2):
             raise Inconclusive('too few usable episodes: %r' % results)
@@ -278,6 +444,13 @@ def check_property(pid, tier, seed):
             rp = replay_prog(e['prog'], choices)
             again = None
             for attempt in range(1 if rp['sched']['kind'] != 'free' else 6):
+                if epid == 'C12codec':
+                    cand = run_codec('r%d' % attempt)
+                    v, r2 = tlc_obs_confirm(scratch, cand, invs, 'codec-%d' % attempt)
+                    if v:
+                        again = (v, cand)
+                        rp = {'codec_failures': [e for e in cand['events'] if not e.get('ok')][:20], 'seed': seed}
+                    break
                 reps, rcr = vlib.run_episodes(binary, [rp], scratch, gomaxprocs=1 if rp['sched']['kind'] != 'free' else 0, workers=1, tag='r%d' % attempt)
                 cand = reps[0] if reps else None
                 if rcr:
@@ -362,6 +535,8 @@ def main():
             finally:
                 shutil.rmtree(scratch, ignore_errors=True)
             return 0
+        if a.prop == 'C19':
+            return check_race(a.prop, a.tier, seed)
         return check_property(a.prop, a.tier, seed)
     except Inconclusive as ex:
         print('INCONCLUSIVE %s' % str(ex)[:4000], flush=True)
